@@ -35,7 +35,7 @@ class Def:
 
     @property
     def strong(self) -> bool:
-        return self.kind in ("assign", "for", "param", "with", "import", "except", "del")
+        return self.kind in ("assign", "aug", "for", "param", "with", "import", "except", "del")
 
     def __repr__(self):
         return f"Def({self.name}@{self.nid}:{self.kind} {A.src(self.value)[:40] if self.value is not None else ''})"
